@@ -86,6 +86,18 @@ Definition sl_delete (w : slw) (e : entity) : slw * bool :=
     (purge (with_life w (set_cell (sl_life w) (fst e) (Free (snd e))) (fst e :: sl_free w)) (fst e), true)
   else (w, false).
 
+(* world.delete_entities(&[..]): Allocator::kill works through the slice up
+   to the first handle that is not alive (a stale handle, or one repeated in
+   the slice) and fails there; the components of everything killed up to that
+   point are removed either way (delete_components(&delete[..failed_index])).
+   Killing and purging one entity at a time gives the same world: neither the
+   liveness test nor the free list looks at components. *)
+Fixpoint sl_delete_many (w : slw) (es : list entity) : slw * bool :=
+  match es with
+  | [] => (w, true)
+  | e :: r => let '(w', ok) := sl_delete w e in if ok then sl_delete_many w' r else (w', false)
+  end.
+
 (* entities.delete(e): deferred *)
 Definition sl_edelete (w : slw) (e : entity) : slw * bool :=
   let '(s', ok) := l_kill_def (sl_life w) e in (with_life w s' (sl_free w), ok).
